@@ -94,7 +94,23 @@ type RSoak struct {
 	Sleep int64  `json:"sleep_ns"`        // virtual time slept every 97 events
 	Raw   bool   `json:"raw,omitempty"`   // records go through Push (text) instead of PushMessage
 	Close bool   `json:"close,omitempty"` // Close at the end
+	// Backlog > 0: the history comes in cycles. An event that stays open is
+	// followed by Backlog events that pile up behind it (complete, or open too
+	// when Open says so); then the pile is let go at once: by the open event's
+	// EOE, by a sleep past the timeout and one Maintain, or by the next cycle.
+	Backlog int `json:"backlog,omitempty"`
+	// Huge > 0: one event of so many records in the middle of the history.
+	Huge int `json:"huge_event_records,omitempty"`
+	// EOE: every multi-record event ends with an EOE record (never PROCTITLE).
+	EOE bool `json:"eoe,omitempty"`
+	// Tail: after the N events, a gap of three numbers and one event that stays
+	// open, then (Close says) Close or a sleep past the timeout and one Maintain:
+	// the flush that follows exactly N deliveries.
+	Tail bool `json:"tail,omitempty"`
 }
+
+// counts at which periodic work tends to happen
+var soakThresholds = []int{256, 512, 1000, 1024, 2048, 4096, 8192, 10000, 16384, 32768, 65536}
 
 func expandSoak(p *RPlan) []ROp {
 	k := p.Soak
@@ -105,6 +121,45 @@ func expandSoak(p *RPlan) []ROp {
 	}
 	ops := make([]ROp, 0, 3*k.N+16)
 	off := uint32(0)
+	if k.Backlog > 0 {
+		for e := 0; e < k.N && off < spanMax-8; {
+			headOff := off
+			ops = append(ops, ROp{K: push, Off: off, Typ: tSYSCALL})
+			off++
+			e++
+			for j := 0; j < k.Backlog && e < k.N; j++ {
+				if r.Chance(k.Gap, 100) {
+					off += uint32(r.Range(1, 3))
+				}
+				switch {
+				case r.Chance(k.Open, 100):
+					ops = append(ops, ROp{K: push, Off: off, Typ: tSYSCALL})
+				case r.Chance(k.Multi, 100):
+					ops = append(ops, ROp{K: push, Off: off, Typ: tSYSCALL}, ROp{K: push, Off: off, Typ: tPATH}, ROp{K: push, Off: off, Typ: tPROCTITLE})
+				default:
+					ops = append(ops, ROp{K: push, Off: off, Typ: core.Pick[uint16](r, tUSERAUTH, tLOGIN, tANOM)})
+				}
+				off++
+				e++
+			}
+			switch r.Intn(4) {
+			case 0:
+				ops = append(ops, ROp{K: push, Off: headOff, Typ: tEOE})
+			case 1:
+				if p.Timeout > 0 && p.Timeout < 3600e9 {
+					ops = append(ops, ROp{K: opSleep, D: p.Timeout + 1}, ROp{K: opMaintain})
+				} else {
+					ops = append(ops, ROp{K: push, Off: headOff, Typ: tPROCTITLE})
+				}
+			case 2:
+				ops = append(ops, ROp{K: opMaintain})
+			}
+		}
+		if k.Close {
+			ops = append(ops, ROp{K: opClose})
+		}
+		return ops
+	}
 	for e := 0; e < k.N && off < spanMax-8; e++ {
 		if r.Chance(k.Multi, 100) {
 			n := r.Range(1, 4)
@@ -113,13 +168,24 @@ func expandSoak(p *RPlan) []ROp {
 				ops = append(ops, ROp{K: push, Off: off, Typ: core.Pick[uint16](r, tPATH, tCWD, tEXECVE)})
 			}
 			if !r.Chance(k.Open, 100) {
-				ops = append(ops, ROp{K: push, Off: off, Typ: core.Pick[uint16](r, tPROCTITLE, tPROCTITLE, tEOE)})
+				term := core.Pick[uint16](r, tPROCTITLE, tPROCTITLE, tEOE)
+				if k.EOE {
+					term = tEOE
+				}
+				ops = append(ops, ROp{K: push, Off: off, Typ: term})
 			}
 		} else {
 			ops = append(ops, ROp{K: push, Off: off, Typ: core.Pick[uint16](r, tUSERAUTH, tLOGIN, tANOM, 1112)})
 		}
-		if e%211 == 210 && off > 3 {
+		if e%211 == 210 && off > 3 && !k.Tail {
 			ops = append(ops, ROp{K: push, Off: off - 2, Typ: tPATH}) // a straggler
+		}
+		if k.Huge > 0 && e == k.N/2 {
+			for j := 0; j < k.Huge; j++ {
+				ops = append(ops, ROp{K: push, Off: off + 1, Typ: core.Pick[uint16](r, tPATH, tPATH, tEXECVE)})
+			}
+			ops = append(ops, ROp{K: push, Off: off + 1, Typ: tPROCTITLE})
+			off++
 		}
 		if k.Maint > 0 && e%k.Maint == k.Maint-1 {
 			ops = append(ops, ROp{K: opMaintain})
@@ -132,6 +198,14 @@ func expandSoak(p *RPlan) []ROp {
 			off += uint32(r.Range(1, 3))
 		}
 	}
+	if k.Tail {
+		ops = append(ops, ROp{K: push, Off: off + 3, Typ: tSYSCALL})
+		if !k.Close && p.Timeout > 0 && p.Timeout < 3600e9 {
+			ops = append(ops, ROp{K: opSleep, D: p.Timeout + 1}, ROp{K: opMaintain})
+		}
+		ops = append(ops, ROp{K: opClose})
+		return ops
+	}
 	if k.Close {
 		ops = append(ops, ROp{K: opClose})
 	}
@@ -142,7 +216,7 @@ func (p *RPlan) Valid() bool {
 	if p.Soak != nil {
 		k := p.Soak
 		if k.N < 1 || k.N > 70000 || k.Gap < 0 || k.Gap > 100 || k.Open < 0 || k.Open > 100 || k.Multi < 0 || k.Multi > 100 || k.Maint < 0 || k.Sleep < 0 ||
-			len(p.Ops) != 0 || p.WideB != 0 || len(p.Scatter) != 0 || p.Max < 0 || p.Max > 64 {
+			len(p.Ops) != 0 || p.WideB != 0 || len(p.Scatter) != 0 || p.Max < 0 || p.Max > 5000 || k.Backlog < 0 || k.Backlog > 5000 || k.Huge < 0 || k.Huge > 70000 {
 			return false
 		}
 		return true
@@ -226,6 +300,37 @@ func GenRPlan(r *core.Rng, tilt int) *RPlan {
 		p := &RPlan{Max: core.Pick(r, 0, 1, 2, 5, 8, 32), Timeout: core.Pick[int64](r, 2e9, 2e9, 3600e9, 1e6, math.MaxInt64), Base: core.Pick(r, uint32(0), 1, 1<<32-1000, r.U32())}
 		p.Soak = &RSoak{N: core.Pick(r, 300, 600, 1100, 2100, 4200, 9000, 17000, 33000, 66000, 70000), Seed: r.U64(), Gap: core.Pick(r, 0, 0, 1, 5), Open: core.Pick(r, 0, 1, 5),
 			Multi: core.Pick(r, 0, 30, 70, 100), Maint: core.Pick(r, 0, 50, 1000), Sleep: core.Pick[int64](r, 0, 1e6, 500e6), Raw: r.Chance(1, 4), Close: r.Chance(2, 3)}
+		switch r.Intn(6) {
+		case 0:
+			// exactly as many deliveries as periodic work tends to wait for (or one more, or one less), then a flush across a gap
+			p.Soak.N = core.Pick(r, soakThresholds...) + r.Range(-1, 1)
+			p.Soak.Gap, p.Soak.Open, p.Soak.Multi, p.Soak.Tail = 0, 0, core.Pick(r, 0, 0, 100), true
+			p.Timeout = core.Pick[int64](r, 2e9, 3600e9)
+		case 1:
+			// one enormous event
+			p.Soak.Huge = core.Pick(r, 1000, 2047, 2048, 2049, 4100, 10000, 66000)
+			if p.Soak.N > 9000 {
+				p.Soak.N = 9000
+			}
+		case 2:
+			// every event ends with an EOE record, as text
+			p.Soak.EOE, p.Soak.Multi, p.Soak.Raw = true, 100, r.Chance(3, 4)
+		}
+		if r.Chance(1, 3) {
+			// the sequence counter rolls over where periodic work tends to happen
+			p.Base = uint32(-core.Pick(r, soakThresholds...) + r.Range(-300, 300))
+		}
+		if p.Soak.Huge == 0 && !p.Soak.Tail && r.Chance(1, 2) {
+			// piles of events behind one that stays open, in a Reassembler with room for them
+			p.Soak.Backlog = core.Pick(r, 100, 260, 520, 700, 1100, 2100, 4200)
+			p.Max = core.Pick(r, p.Soak.Backlog+1, p.Soak.Backlog+50, p.Soak.Backlog/2, 5000)
+			p.Soak.Open = core.Pick(r, 0, 0, 5, 100)
+			p.Soak.Gap = core.Pick(r, 0, 1, 1, 5)
+			if p.Soak.N > 20000 {
+				p.Soak.N = 20000
+			}
+			p.Timeout = core.Pick[int64](r, 2e9, 2e9, 3600e9, math.MaxInt64)
+		}
 		p.Fired = make([]int, nRFaults)
 		return p
 	}
